@@ -255,6 +255,8 @@ struct BuildJob<'a> {
     cfg: Cfg,
     ext: FieldExtension,
     flavour: usize,
+    /// forced (log2 trace length, blowup, folding factor, remainder max degree, queries)
+    force: Option<(u32, usize, usize, usize, usize)>,
 }
 
 impl<'a> Job for BuildJob<'a> {
@@ -263,9 +265,14 @@ impl<'a> Job for BuildJob<'a> {
         if !ext_supported::<B>(self.ext) {
             return None;
         }
-        for _attempt in 0..20 {
-            let lim = GenLimits { max_log_len: 4, max_width: if self.flavour == 2 { 12 } else { 4 }, max_grinding: 0, allow_aux: self.flavour == 1 };
+        for _attempt in 0..(if self.force.is_some() { 200 } else { 20 }) {
+            let lim = GenLimits { max_log_len: self.force.map(|f| f.0.max(3)).unwrap_or(4), max_width: if self.flavour == 2 { 12 } else { 4 }, max_grinding: 0, allow_aux: self.flavour == 1 };
             let mut case = gen_case::<B>(self.ch, &lim);
+            if let Some((ll, fb, _, _, _)) = self.force {
+                if case.shape.log_len != ll || case.shape.min_blowup() > fb {
+                    continue;
+                }
+            }
             if (self.flavour == 1) != case.shape.aux.is_some() {
                 continue;
             }
@@ -299,6 +306,12 @@ impl<'a> Job for BuildJob<'a> {
             }
             let grind = if self.flavour == 3 { 3 } else { 0 };
             case.options = ProofOptions::new(q, blow, grind, self.ext, f, r);
+            if let Some((_, fb, ff, fr, fq)) = self.force {
+                if !fri_well_formed(case.shape.len(), fb, ff, fr) {
+                    return None;
+                }
+                case.options = ProofOptions::new(fq.min(case.shape.len() * fb - 1), fb, 0, self.ext, ff, fr);
+            }
             let (out, _) = prove::<B, H, DefaultRandomCoin<H>>(&case, &case.rows, None);
             let ProveOutcome::Ok(proof) = out else { continue };
             let proof = *proof;
@@ -328,7 +341,7 @@ pub fn fresh_base(ch: &mut Chooser) -> Option<Box<dyn Base>> {
     let cfg = CONFIGS[ch.index("fresh.cfg", CONFIGS.len())];
     let ext = [FieldExtension::None, FieldExtension::Quadratic, FieldExtension::Cubic][ch.index("fresh.ext", 3)];
     let flavour = ch.weighted("fresh.flavour", &[3, 2, 1, 1]);
-    dispatch(cfg, BuildJob { ch, cfg, ext, flavour })
+    dispatch(cfg, BuildJob { ch, cfg, ext, flavour, force: None })
 }
 
 static BASES: Mutex<BTreeMap<u64, &'static [Box<dyn Base>]>> = Mutex::new(BTreeMap::new());
@@ -357,7 +370,7 @@ pub fn bases(seed: u64) -> &'static [Box<dyn Base>] {
                 }
                 k += 1;
                 let mut ch = Chooser::record(simcore::rng::stream(seed, "hostile-bases", k));
-                if let Some(b) = dispatch(*cfg, BuildJob { ch: &mut ch, cfg: *cfg, ext: *ext, flavour: fl }) {
+                if let Some(b) = dispatch(*cfg, BuildJob { ch: &mut ch, cfg: *cfg, ext: *ext, flavour: fl, force: None }) {
                     out.push(b);
                 }
             }
@@ -366,6 +379,33 @@ pub fn bases(seed: u64) -> &'static [Box<dyn Base>] {
     let leaked: &'static [Box<dyn Base>] = Box::leak(out.into_boxed_slice());
     cache.insert(seed, leaked);
     leaked
+}
+
+/// The option grid of the `options-cross` arms: (log2 trace length, blowup, folding, remainder
+/// max degree); ill-formed FRI schedules have no honest proof and yield `None`.
+pub const GRID_LOG_LEN: [u32; 3] = [3, 4, 5];
+pub const GRID_BLOWUP: [usize; 3] = [2, 4, 8];
+pub const GRID_FOLDING: [usize; 4] = [2, 4, 8, 16];
+pub const GRID_RMAX: [usize; 4] = [0, 1, 3, 7];
+pub const GRID_POINTS: usize = 3 * 3 * 4 * 4;
+
+pub fn grid_point(i: usize) -> (u32, usize, usize, usize) {
+    (GRID_LOG_LEN[i % 3], GRID_BLOWUP[i / 3 % 3], GRID_FOLDING[i / 9 % 4], GRID_RMAX[i / 36 % 4])
+}
+
+static GRID: simcore::Keyed<(u64, usize), Option<Box<dyn Base>>> = simcore::Keyed::new();
+
+/// the honest proof of grid point `i` (tiny AIR, 2..4 queries, no grinding), built once per
+/// process and seed; (field, hasher) and extension rotate with the index
+pub fn grid_base(seed: u64, i: usize) -> Option<&'static dyn Base> {
+    GRID.get_or_init((seed, i), || {
+        let (ll, b, f, r) = grid_point(i);
+        let cfg = CONFIGS[[0usize, 10, 3, 6][i % 4]];
+        let exts = [FieldExtension::None, FieldExtension::Quadratic];
+        let mut ch = Chooser::record(simcore::rng::stream(seed, "hostile-grid", i as u64));
+        dispatch(cfg, BuildJob { ch: &mut ch, cfg, ext: exts[(i / 4) % 2], flavour: 0, force: Some((ll, b, f, r, 2 + i % 3)) })
+    })
+    .as_deref()
 }
 
 pub fn describe_bases(seed: u64) -> Vec<String> {
